@@ -10,6 +10,7 @@ package rotime
 //@ func Add$1
 //@   props C18
 //@   binds value d
+//@   calls Add
 //@   maypanic
 //@   track call.*
 //@   ensures [calls-the-wrapped-function-once|C18] count(call.ANY) == 1 && called(call.Time.Add)
@@ -19,6 +20,7 @@ package rotime
 //@ func AddDate$1
 //@   props C18
 //@   binds value years months days
+//@   calls AddDate
 //@   maypanic
 //@   track call.*
 //@   ensures [calls-the-wrapped-function-once|C18] count(call.ANY) == 1 && called(call.Time.AddDate)
@@ -28,6 +30,7 @@ package rotime
 //@ func Format$1
 //@   props C18
 //@   binds value format
+//@   calls Format
 //@   maypanic
 //@   track call.*
 //@   ensures [calls-the-wrapped-function-once|C18] count(call.ANY) == 1 && called(call.Time.Format)
@@ -37,6 +40,7 @@ package rotime
 //@ func In$1
 //@   props C18
 //@   binds value loc
+//@   calls In
 //@   maypanic
 //@   track call.*
 //@   ensures [calls-the-wrapped-function-once|C18] count(call.ANY) == 1 && called(call.Time.In)
@@ -46,6 +50,7 @@ package rotime
 //@ func Parse$1
 //@   props C18
 //@   binds value layout
+//@   calls Parse
 //@   maypanic
 //@   track call.*
 //@   ensures [calls-the-wrapped-function-once|C18] count(call.ANY) == 1 && called(call.Parse)
@@ -55,6 +60,7 @@ package rotime
 //@ func ParseInLocation$1
 //@   props C18
 //@   binds value layout loc
+//@   calls ParseInLocation
 //@   maypanic
 //@   track call.*
 //@   ensures [calls-the-wrapped-function-once|C18] count(call.ANY) == 1 && called(call.ParseInLocation)
@@ -66,6 +72,7 @@ package rotime
 //@   note the day is rebuilt from the item's own calendar date and location with time.Date (midnight of that civil day in that zone, whatever the zone's offset did that day): one Date(), one Location(), one time.Date over exactly those
 //@   props C18
 //@   binds value
+//@   calls Date Location
 //@   maypanic
 //@   track call.*
 //@   ensures [reads-the-civil-date-and-the-zone-of-the-item|C18] count(call.ANY) == 3 && called(call.Time.Date) && called(call.Time.Location) && called(call.Date) && arg(call.Time.Date, 0) == value && arg(call.Time.Location, 0) == value
